@@ -602,8 +602,8 @@ mod verif_in_context {
     }
     //@ h name=step_msg_publish_q1 props=C05,C06,C10,C12,C17 tier=quick cap=small to=1200
     //@ h name=step_msg_publish_q2 props=C05,C06,C10,C12,C17 tier=quick cap=small to=1200
-    //@ h name=step_msg_pubrel props=C05,C06,C10,C12,C17 tier=quick cap=small to=1200
-    //@ h name=step_msg_unsubscribe props=C05,C10,C12 tier=quick cap=small to=1200
+    //@ h name=step_msg_pubrel props=C05,C06,C10,C12,C17 tier=thorough cap=small to=1200
+    //@ h name=step_msg_unsubscribe props=C05,C10,C12 tier=thorough cap=small to=1200
     //@ h name=step_msg_pingreq props=C05,C10,C12 tier=thorough cap=small to=1200
     //@ h name=step_msg_publish_q0 props=C06,C10,C12 tier=quick cap=small to=1200
     //@ h name=step_msg_disconnect props=C10,C12 tier=thorough cap=small to=1200
@@ -620,7 +620,7 @@ mod verif_in_context {
     step_msg!(step_msg_disconnect, 7);
     step_msg!(step_msg_subscribe, 8);
 
-    //@ h name=step_msg_publish_q1_cancelled props=C15,C10,C12 tier=quick cap=small to=1200
+    //@ h name=step_msg_publish_q1_cancelled props=C15,C10,C12 tier=thorough cap=small to=1200
     //@ h name=step_msg_publish_q0_cancelled props=C15,C12 tier=quick cap=small to=1200
     //@ h name=step_msg_subscribe_cancelled props=C15,C12 tier=thorough cap=small to=1200
     //@ claim: the same handle_message step when the caller has already dropped the operation's future (its response channel and stream are closed): the step still returns Ok, so run() keeps serving; refusals (Maximum Packet Size, quota) still write nothing and leave nothing behind; an accepted request is still written once and registered exactly as for a live caller, so that its late acknowledgement finds its waiter and frees the quota slot
@@ -632,7 +632,7 @@ mod verif_in_context {
 
     //@ h name=step_msg_publish_q1_pending props=C16,C01,C10 tier=off cap=small to=1200 mem=40
     //@ h name=step_msg_subscribe_pending props=C16,C01 tier=off cap=small to=1200 mem=40
-    //@ h name=step_msg_publish_q0_pending props=C16,C01 tier=quick cap=small to=1200
+    //@ h name=step_msg_publish_q0_pending props=C16,C01 tier=thorough cap=small to=1200
     //@ claim: the same handle_message step against a transport that first answers Pending: the step returns Pending only because the transport did (whose waker is then registered), nothing has reached the wire at that point, and the next poll completes it with exactly the same result as an undelayed step: the packet on the wire exactly once and whole, one quota slot, one waiter, one retransmit entry
     //@ bounds: as step_msg_*; one Pending answer, then every write accepted at once
     //@ funcs: Context::handle_message, TxPacketStream::write
